@@ -41,7 +41,8 @@ var universe, bigIdx = func() ([]string, []int) {
 	// endpoint names are opaque strings (gRPC targets may carry commas, e.g.
 	// "ipv4:10.0.0.1:443,10.0.0.2:443"): one name is the comma-join of two others
 	// ... and one differs from another in letter case only
-	u := []string{"a", "b", "a,b", "A", "e", "zz-unknown"}
+	// ... and one is the empty string
+	u := []string{"a", "b", "a,b", "A", "", "zz-unknown"}
 	idx := []int{0, 1, 2, 3, 4}
 	for i := 0; i < 35; i++ {
 		idx = append(idx, len(u))
@@ -797,8 +798,10 @@ func (s *sim) checkLinearizable(res *simkit.Result) {
 			list := strings.Split(state.list, linSep)
 			avail := map[string]bool{}
 			if state.avail != "" {
+				// every element is prefixed ("\x01name"): the empty set and the set
+				// holding the empty name are different strings
 				for _, e := range strings.Split(state.avail, linSep) {
-					avail[e] = true
+					avail[strings.TrimPrefix(e, "\x01")] = true
 				}
 			}
 			switch h.Kind {
@@ -828,7 +831,7 @@ func (s *sim) checkLinearizable(res *simkit.Result) {
 			}
 			var av []string
 			for e := range avail {
-				av = append(av, e)
+				av = append(av, "\x01"+e)
 			}
 			sort.Strings(av)
 			ns := linState{list: strings.Join(list, linSep), avail: strings.Join(av, linSep), cur: linRule(list, avail, state.cur)}
@@ -1255,14 +1258,14 @@ func (s *sim) converge() {
 	okSome := false
 	want := ""
 	for _, m := range mo.members {
-		top := ""
+		top, any := "", false // (the empty string is a name like any other)
 		for _, e := range mo.list {
 			if m.st[e].kind == available {
-				top = e
+				top, any = e, true
 				break
 			}
 		}
-		if top == "" || top == x {
+		if !any || top == x {
 			okSome = true
 		} else {
 			want = top
@@ -1365,7 +1368,7 @@ func (s *sim) runConcurrent(src *simkit.Source) {
 		if !s.stop && err != nil {
 			s.vio("C13", "valid-list-rejected", "settle", fmt.Sprintf("SetEndpoints(%v) = %v", final, err))
 		}
-		top := ""
+		top, anyUp := "", false
 		for i, e := range final {
 			up := (r>>(uint(i)+3))&1 == 1
 			if s.stop {
@@ -1373,8 +1376,8 @@ func (s *sim) runConcurrent(src *simkit.Source) {
 			}
 			e := e
 			s.call("SetEndpointAvailability", func() { s.me.SetEndpointAvailability(e, up) })
-			if up && top == "" {
-				top = e
+			if up && !anyUp {
+				top, anyUp = e, true
 			}
 		}
 		for i := 0; i < 20 && !s.stop && s.k.PendingOneShot() > 0; i++ {
@@ -1387,7 +1390,7 @@ func (s *sim) runConcurrent(src *simkit.Source) {
 			case s.stop:
 			case idx(final, x) < 0:
 				s.vio("C13", "current-not-in-list", "settle", fmt.Sprintf("after the concurrent burst and a serial settling pass Current()=%q, list %v", x, final))
-			case top != "" && x != top:
+			case anyUp && x != top:
 				s.vio("C14", "no-convergence", "settle", fmt.Sprintf("after the concurrent burst, a serial settling pass and all timers, Current()=%q but the highest-priority available endpoint is %q (list %v)", x, top, final))
 			}
 			s.res.Count("probe:concurrent_settle_checked", 1)
